@@ -1,6 +1,8 @@
 """C12 — the staging buffer delivers every byte once, in order, under every interleaving."""
 import itertools
 from vlib import Prop, CaseT, unhex
+import bbgen
+from props import C01 as c01
 
 
 def merges(a, b):
@@ -26,6 +28,8 @@ class C12(Prop):
             "interleaved in every order-preserving way with every consumer program of the list "
             "(switch→await, readiness polls, len, expect_closed_write), both staging modes, at the granularity of "
             "the public calls (await/len/expect run on a helper thread and must stay blocked until the drop); "
+            "plus the staging buffers where the writers use them (per-chromosome data and zoom buffers redirected, awaited and taken back), on "
+            "current-thread / 1 / 2 / 8-worker executors × single / two pass × in-memory / temp-file staging, read back in full; "
             "non-trivial = the consumer's switch or blocking call lands before the producer's drop with at least one write")
     impl_timeout = 15
     removable = ()
@@ -68,12 +72,43 @@ class C12(Prop):
                         c.tags |= {"large_writes", "prog_" + "".join(prog), "inmem" if inmem else "tempfile", "consumer_before_drop"}
                         out.append(c)
                         k += 1
+        # the staging buffers where the writers use them: per chromosome the data (and every zoom level) is staged while the
+        # previous chromosome is spliced into the file; the consumer redirects, waits for the producer and takes the file
+        # back. Every executor flavour (also a SINGLE executor thread, where a consumer that blocks before the producer has
+        # run never returns), both pass modes, both staging modes, chromosomes from a few bytes to several BufWriter loads
+        for g in range(10 if tier == "thorough" else 3):
+            r = rng.fork(f"pipe{g}")
+            names = ["chrA", "chrB", "chrC", "chrD"][: r.choice([2, 3, 4])]
+            sizes = {n: 400000 for n in names}
+            data = {n: [(i * 9, i * 9 + 4, bbgen.f32bits(float(1 + (i * 31 + j) % 17))) for i in range(r.choice([1, 3, 40, 1200, 4000]))]
+                    for j, n in enumerate(names)}
+            body = bbgen.wig_lines(names, sizes, data) + [f"Q iv {n} 0 {sizes[n]}" for n in names]
+            for rt, th in (("ct", 1), ("mt", 1), ("mt", 2), ("mt", 8)):
+                for ps in (1, 2):
+                    for inmem in (0, 1):
+                        o = {"compress": r.choice([0, 1]), "ips": r.choice([2, 1024]), "bs": r.choice([2, 256]), "zooms": r.choice(["10,40", "none", "auto"]),
+                             "pass": ps, "inmem": inmem, "rt": rt, "threads": th, "chan": r.choice([0, 1, 100]), "src": "iter", "sort": "all"}
+                        c = CaseT(f"pipe{k}", "wig", [], [bbgen.opt_line(o)] + body,
+                                  {"write_pipeline", f"rt={rt}{th}", f"pass={ps}", "inmem" if inmem else "tempfile", "consumer_before_drop"})
+                        out.append(c)
+                        k += 1
         return out
+
+    def model_extra(self, case, il):
+        return c01.PROP.model_extra(case, il) if case.kind == "wig" else []
+
+    def compare(self, case, il, ml):
+        return c01.PROP.compare(case, il, ml) if case.kind == "wig" else super().compare(case, il, ml)
 
     def nontrivial(self, case, impl_lines):
         return "consumer_before_drop" in case.tags
 
     def oracle(self, case, il):
+        if case.kind == "wig":
+            r = il[0] if il else "R missing"
+            if r.startswith("R hang"):
+                return "write pipeline: the write call did not return — a wait for a staged buffer's producer never ended"
+            return c01.PROP.oracle(case, il)
         sched = case.records("SCHED")[0][1:]
         d0 = unhex(case.opts().get("d0", "-"))
         written = b"".join(unhex(t[2:]) for t in sched if t.startswith("W:"))
